@@ -13,14 +13,15 @@ def prop(pid, text, residual, funcs, design="DESIGN.md §8 " ):
                   labels={f: l for f, l in funcs.items() if l is not None},
                   residual=residual, design_ref=design + pid, level_text=text, level_note=NOTE + "; residual (not decided): " + residual)
 
-prop("C01", "Unbounded proof, per function and for all inputs and paths, that every route by which a staged body changes extension or leaves the stage passes the hash check: rename to .wait, state validated and the hand-over to finalization only under MD5(.full) == announced hash; mismatch or MD5 error => state failed, no rename; the move into the final directory only for a file whose cached state is validated, moving the .wait body to Join(targetDir, renamed|name); a new announced hash discards the recorded ranges",
+prop("C01", "Unbounded proof, per function and for all inputs and paths, that every route by which a staged body changes extension or leaves the stage passes the hash check: rename to .wait, state validated and the hand-over to finalization only under MD5(.full) == announced hash; mismatch or MD5 error => state failed, no rename; the move into the final directory only for a file whose cached state is validated, moving the .wait body to Join(targetDir, renamed|name); a new announced hash discards the recorded ranges; the move is rename-or-copy into a temporary that is swapped in, the fallback copy writes into an emptied destination; the sender announces a file under exactly its path below the root",
      "interleavings of goroutines; MD5 and the OS (trusted); composition of the per-function facts into the end-to-end statement is a paper argument (DESIGN.md §8 C01); sender-side re-hash",
      {S+"process": ["ignore-unless-received", "hashes-the-full-body", "validated-needs-hash-match", "renames-full-to-wait", "caches-this-file", "mismatch-fails", "rename-failure-fails", "validated-is-queued"],
       S+"finalize": ["only-validated", "under-path-lock"],
       S+"putFileAway": ["moves-wait-body", "finalized-after-move", "error-means-not-finalized", "ok-means-finalized"],
       "stage.newLocalCompanion": None,
       S+"GetFileStatus": None,
-      S+"Receive": ["record-before-rename", "received-after-rename", "caches-received-or-failed", "validates-what-was-received", "complete-is-queued"]})
+      S+"Receive": ["record-before-rename", "received-after-rename", "caches-received-or-failed", "validates-what-was-received", "complete-is-queued"],
+      "fileutil.Copy": None, "fileutil.Move": None, "(*store.Local).getRelPath": None})
 prop("C04", "Unbounded proof of the receiver's ordering gate: a file is finalized only if its predecessor is delivered (finalized/logged, or found in the receive log), otherwise it is parked on the predecessor; waiters are released only after the predecessor was put away, each exactly as returned by the wait map; the receive-log record precedes the move; the order is given up only when the wait graph search found a back reference",
      "timers and the cleaner run concurrently (A1); cycle detection itself is only checked for 'a reported loop contains a back reference'; sender-side chain is C10",
      {S+"isFileReady": None, S+"finalizeHandler": None,
